@@ -107,6 +107,8 @@ def _run_chunk(modname, prop, tier, base_seed, indices, recheck_every):
                 desc = None
             res["idx"] = idx
             res["seed"] = seed
+            if desc is not None:
+                res["features"] = scenario_features(desc)
             if idx < 3 and desc is not None:
                 res["sample"] = _trim(desc)
             res["wall"] = time.time() - t0
@@ -118,6 +120,51 @@ def _run_chunk(modname, prop, tier, base_seed, indices, recheck_every):
         return out
     finally:
         faulthandler.cancel_dump_traceback_later()
+
+
+_F_SKIP = {"seed", "id", "salt", "tapes", "tier", "depth", "add_depth", "dur", "deps", "args", "kwargs", "scope", "fname",
+           "value", "index", "of", "items", "n", "add_order", "epoch", "tick", "errno", "name", "size", "offsets",
+           "renders", "seconds", "intervals", "durs", "edges", "buffer_size", "max_steps", "store", "node"}
+_F_VALUE = {"mode", "kind", "op", "progress", "k_mode", "fault_kind", "cls", "flavour", "transform", "scheduler",
+            "prior", "path_type", "fault_exc", "cut_mode", "gran", "exc", "fail_kind", "max_errors", "max_workers",
+            "stale_workers", "zone", "tz", "fresh_render", "at", "what", "when"}
+
+
+def scenario_features(desc):
+    """Which generator features a case description uses: every key path that carries a non-empty value, and
+    `path=value` for the enumerated ones.  Aggregated into coverage.scenario_features (cases per feature), so that
+    a scenario template that silently stopped being generated shows up as a feature that vanished
+    (`./check selftest-reach`)."""
+    out = set()
+
+    def walk(d, pre, depth):
+        if depth > 5 or not isinstance(d, dict):
+            return
+        for k, v in d.items():
+            if k in _F_SKIP or v in (None, False, [], {}, 0, 0.0, "", ()):
+                if k in _F_VALUE and k not in _F_SKIP and (v is None or v is False or v == 0) and not isinstance(v, float):
+                    out.add(f"{pre}{k}={v!r}")
+                continue
+            if pre.endswith(("stores.", "calls.", "cfn.")) and isinstance(v, dict):
+                walk(v, pre + "*.", depth + 1)     # keyed by store name / node id
+            elif isinstance(v, dict):
+                out.add(pre + k)
+                walk(v, pre + k + ".", depth + 1)
+            elif isinstance(v, list) and v and isinstance(v[0], dict):
+                out.add(pre + k + "[]")
+                for x in v[:300]:
+                    walk(x, pre + k + "[].", depth + 1)
+            elif k == "strategy" and isinstance(v, list):
+                out.add(f"{pre}{k}={v[0]}" + ("+phase" if len(v) > 3 else ""))
+            elif k in _F_VALUE and isinstance(v, (str, bool, int)):
+                out.add(f"{pre}{k}={v!r}" if not (isinstance(v, int) and v >= 5) else f"{pre}{k}=5+")
+            elif k in _F_VALUE and isinstance(v, list) and v and isinstance(v[0], str):
+                out.add(f"{pre}{k}={v[0]}...")
+            else:
+                out.add(pre + k)
+
+    walk(desc, "", 0)
+    return sorted(out)
 
 
 def _trim(desc, limit=5000):
@@ -199,7 +246,7 @@ def run_batch(modname, prop, tier, *, n_cases, budget_s, jobs, base_seed, chunk=
         "evaluations": 0, "nontrivial_keys": set(), "interleavings": set(), "states": set(),
         "steps": 0, "switches": 0, "preemptions": 0, "vtime": 0.0, "decisions": 0,
         "fired": {}, "probes": {}, "strategies": {}, "grans": {}, "max_steps_run": 0,
-        "samples": [], "rechecked": 0, "sub": 0,
+        "samples": [], "rechecked": 0, "sub": 0, "features": {},
     }
     digests = {}
     violations = []
@@ -272,6 +319,8 @@ def _aggregate(agg, res):
         agg["strategies"][k] = agg["strategies"].get(k, 0) + 1
     for k in st.get("grans", ()):
         agg["grans"][k] = agg["grans"].get(k, 0) + 1
+    for k in res.get("features", ()):
+        agg["features"][k] = agg["features"].get(k, 0) + 1
     for key in st.get("nontrivial_keys", ()):
         agg["nontrivial_keys"].add(key)
     for key in st.get("interleavings", ()):
@@ -306,6 +355,7 @@ def write_evidence(prop, tier, base_seed, level, out, meta, n_violations):
         "distinct_abstract_states": len(agg["states"]),
         "fault_kinds_fired": dict(sorted(agg["fired"].items())),
         "probes": dict(sorted(agg["probes"].items())),
+        "scenario_features": dict(sorted(agg["features"].items())),
         "strategies": dict(sorted(agg["strategies"].items())),
         "granularities": dict(sorted(agg["grans"].items())),
         "max_steps_in_one_run": agg["max_steps_run"],
